@@ -86,7 +86,7 @@ def text_nodes(rng, tag, nlines=None, empty_lines=0.0, **linekw):
                 elif k < 0.75:
                     nodes += [['t', ''], ['b']]
                 else:
-                    nodes += [['t', rng.choice([' ', '  ', ' '])], ['b']]
+                    nodes += [['t', rng.choice([' ', '  ', '\u00a0'])], ['b']]
         s = T.line(rng, tag=f'{tag}.{i}', **linekw)
         if rng.random() < 0.1:
             s = ' ' + s
